@@ -135,6 +135,10 @@ def cli_sample(bins, pid, tier, seed):
                 if res["rc"] == 0 and isinstance(res["out"], dict) and res["out"].get(key) is not None:
                     return {"ok": True, "err": "", "groups": [sorted(runlib.P(x) for x in g) for g in res["out"][key]]}
                 return {"ok": False, "err": fx.err_type(res)[0] or "other", "groups": []}
+            if i % 2 == 1:
+                # another command has been used in this repository before (whatever it left behind must not matter): a run
+                # restricted to one target and its dependencies
+                fx.monorail(["run", "-c", "build", "-t", rng.choice(ts)["path"], "--deps"])
             for api, args in (("cli_analyze", ["analyze", "--target-groups"]), ("cli_target_show", ["target", "show", "-g"])):
                 r = fx.monorail(args)
                 a_recs.append({"ev": "groups", "config": cfg, "roots": allr, "pruned": False, "changed": [], "out": groups_of(r, "target_groups"), "via": api})
@@ -219,6 +223,81 @@ def cli_sample(bins, pid, tier, seed):
     return [r for a, _ in out for r in a], [r for _, b in out for r in b]
 
 
+def cli_c01_sample(bins, tier, seed):
+    """C01 through the real command line, several questions in ONE repository: after a checkpoint, files are edited and
+    removed, `analyze` is asked plainly and with --all, then the `uses` / `ignores` of the configuration are edited (with
+    the same files changed) and it is asked again. The change list is taken from the --all answer of the same state (which
+    changes git reports is C02's business); the mapping of those changes to targets is what is judged, and the plain
+    answer must be the --all answer (presentations)."""
+    import random
+    from concurrent.futures import ThreadPoolExecutor
+    import fixture, runlib
+    n = {"quick": 10, "thorough": 120}[tier]
+    dirs = ["app", "app2", "app-web", "lib", "lib/net", "shared/proto", "shared/docs", "tools"]
+    def one(i):
+        rng = random.Random(seed * 4099 + i)
+        tpaths = rng.sample(["app", "app2", "app-web", "lib", "lib/net", "tools"], rng.randint(2, 5))
+        def random_lists(tp):
+            others = [d for d in dirs if d != tp and not d.startswith(tp + "/") and not tp.startswith(d + "/")]
+            uses = [rng.choice(others) + rng.choice(["", "/f.txt", "/sub"]) for _ in range(rng.randint(0, 2))]
+            uses = [u for u in uses if u.split("/")[0] not in tpaths or u.split("/")[0] > tp]     # keeps the graph acyclic
+            ign = [rng.choice([tp + "/README.md", tp + "/gen", "shared/proto/f.txt", "shared/docs"]) for _ in range(rng.randint(0, 2))]
+            return sorted(set(uses)), sorted(set(ign))
+        ts = []
+        for tp in tpaths:
+            u, g = random_lists(tp)
+            ts.append({"path": tp, "uses": u, "ignores": g})
+        fx = fixture.Fixture(bins, ts, gitignore="Monorail.json\n" if i % 2 else "")
+        recs = []
+        try:
+            for d in dirs:
+                os.makedirs(os.path.join(fx.repo, d, "sub"), exist_ok=True)
+                for fn in ("f.txt", "README.md", "sub/x.rs", "gen/out.bin"):
+                    os.makedirs(os.path.dirname(os.path.join(fx.repo, d, fn)), exist_ok=True)
+                    with open(os.path.join(fx.repo, d, fn), "w") as f:
+                        f.write("v0\n")
+            fx.git_init()
+            if fx.monorail(["checkpoint", "update"])["rc"] != 0:
+                raise vlib.ToolError("checkpoint update failed")
+            def ask(step):
+                full = fx.monorail(["analyze", "--all"])
+                plain = fx.monorail(["analyze"])
+                cfg = runlib.cfg_abs(fx.targets)
+                if full["rc"] != 0 or not isinstance(full["out"], dict):
+                    recs.append({"ev": "analyze", "config": cfg, "changes": [], "out": {"ok": False, "err": fx.err_type(full)[0] or "other", "msg": ""}, "via": "cli", "step": step})
+                    return
+                o = full["out"]
+                tv = o.get("targets") or []
+                per = sorted(({"path": runlib.P(c["path"]), "targets": sorted(({"path": runlib.P(t["path"]), "reason": t["reason"]} for t in (c.get("targets") or [])),
+                                                                             key=lambda x: json.dumps(x))} for c in (o.get("changes") or [])), key=lambda x: json.dumps(x))
+                pres = [sorted(runlib.P(t) for t in ((plain["out"] or {}).get("targets") or []))] if plain["rc"] == 0 else [[["<error>", "plain analyze failed"]]]
+                recs.append({"ev": "analyze", "config": cfg, "changes": [runlib.P(c["path"]) for c in (o.get("changes") or [])],
+                             "out": {"ok": True, "targets": sorted(runlib.P(t) for t in tv), "strictly_sorted": all(tv[k].encode() < tv[k + 1].encode() for k in range(len(tv) - 1)),
+                                     "per_change": per, "singles": [], "pairs": [], "presentations": pres}, "via": "cli", "step": step})
+            # edits: modify, create, remove (a removed file, and a removed directory that a uses / ignores entry names)
+            for d in rng.sample(dirs, rng.randint(2, 4)):
+                with open(os.path.join(fx.repo, d, rng.choice(["f.txt", "README.md", "sub/x.rs"])), "a") as f:
+                    f.write("edit\n")
+            if rng.random() < 0.6:
+                shutil.rmtree(os.path.join(fx.repo, rng.choice(dirs), "gen"), ignore_errors=True)
+            if rng.random() < 0.4:
+                os.remove(os.path.join(fx.repo, rng.choice(["shared/proto", "shared/docs"]), "f.txt"))
+            ask(0)
+            for step in (1, 2):
+                # the configuration changes, the changed files stay the same
+                for t in fx.targets:
+                    if rng.random() < 0.7:
+                        t["uses"], t["ignores"] = random_lists(t["path"])
+                fx.write_config()
+                ask(step)
+            return recs
+        finally:
+            fx.cleanup()
+    with ThreadPoolExecutor(max_workers=8) as ex:
+        out = list(ex.map(one, range(n)))
+    return [r for rs in out for r in rs]
+
+
 def run(pid, tier):
     level = "model_checking"
     chk = vlib.Check(pid, tier, level)
@@ -298,6 +377,10 @@ def run(pid, tier):
             big_fails = bf
         else:
             big_fails = []
+        if pid == "C01":
+            c01 = cli_c01_sample(bins, tier, chk.seed)
+            chk.cov["cli_records"] = len(c01)
+            records += c01
         # ---- the same through the real CLI (target render / analyze / target show / run)
         run_fails = []
         if pid in ("C03", "C09", "C10"):
